@@ -399,6 +399,16 @@ def check_r4c(eng, rep, cq, fi, summ, ename):
         # receiver class has no in-place API: aliasing its own parts cannot be observed through it (CFG.to_normal_form)
         pass
     aliases = returned_operand_aliases(ret)
+    # a field that held the returned object while it was being built and is overwritten before the function returns
+    # (`res = self._f; self._f = None; return res`) does not keep it: on exit self._f is something else on every path
+    def _still_held(l):
+        if l[0] == "self" and len(l[1]) == 1 and l[1][0] in summ.self_out:
+            val, strong = summ.self_out[l[1][0]]
+            if strong and val is not None and val.types is not None and val.types and not (set(val.alias) & set(ret.alias) - {l}) \
+                    and val.only("None"):
+                return False
+        return True
+    aliases = [l for l in aliases if _still_held(l)]
     # only operands that have a public mutator matter: the alias is observable by mutating either side
     aliases = [l for l in aliases if _loc_is_mutable_machine(eng, cq, fi, l, is_container_conv)]
     if aliases:
